@@ -214,6 +214,8 @@ FT = 'sedfitter/fit.py'
 SO = 'sedfitter/source/source.py'
 
 MUST_FIRE = [
+    ('log-flux buffer inherits the caller dtype', [(SO, "log_flux = np.zeros(self.flux.shape, dtype=np.float64)", "log_flux = np.zeros_like(self.flux)")]),
+    ('weight buffer created as integers', [(SO, "weight = np.zeros(self.valid.shape, dtype=np.float64)", "weight = np.zeros(self.valid.shape, dtype=int)")]),
     ('LR: sign of m12*c2', [(FR, 'p1 = (m22 * c1 - m12 * c2) * inv_det', 'p1 = (m22 * c1 + m12 * c2) * inv_det')]),
     ('LR: det with + m12^2', [(FR, 'inv_det = 1. / (m11 * m22 - m12 * m12)', 'inv_det = 1. / (m11 * m22 + m12 * m12)')]),
     ('LR: c2 built from pattern1', [(FR, 'c2 = np.sum(data * pattern2 * weights, axis=1)', 'c2 = np.sum(data * pattern1 * weights, axis=1)')]),
@@ -244,6 +246,8 @@ MUST_FIRE = [
 ]
 
 MUST_SILENT = [
+    ('buffers created with zeros_like and an explicit float dtype', [(SO, "log_flux = np.zeros(self.flux.shape, dtype=np.float64)", "log_flux = np.zeros_like(self.flux, dtype=float)")]),
+    ('buffers created with the default dtype', [(SO, "log_error = np.zeros(self.error.shape, dtype=np.float64)", "log_error = np.zeros(self.error.shape)")]),
     ('LR: commuted products', [(FR, 'c1 = np.sum(data * pattern1 * weights, axis=1)', 'c1 = np.sum(weights * pattern1 * data, axis=1)')]),
     ('LR: explicit division', [(FR, 'p1 = (m22 * c1 - m12 * c2) * inv_det', 'p1 = (m22 * c1 - m12 * c2) / (m11 * m22 - m12 * m12)')]),
     ('LR: method-form sum', [(FR, 'm11 = np.sum(pattern1 * pattern1 * weights)', 'm11 = (pattern1 ** 2 * weights).sum()')]),
